@@ -1,13 +1,199 @@
-(* C02 proofs: conservation invariants of the gamm keeper + router model, parametric in the pool math. *)
+(* C02 proofs: conservation invariants of the gamm keeper + router model, parametric in the pool math.
+   Part 1: lists, bank, sums over account lists, primitive specifications. *)
 From Coq Require Import ZArith List Bool Lia.
 Import ListNotations.
 From Osmo Require Import Base.DecModel C05.Model C05.Proofs C02.Model.
 Open Scope Z_scope.
 
-Section WithMath.
-Variable M : PoolMath.
+Definition ind (c : bool) (v : Z) : Z := if c then v else 0.
 
-Lemma gstep_err_unchanged : forall s m s' e, gstep M s m = (s', Err e) -> s' = s.
-Proof. unfold gstep; intros. destruct (ghandle M s m) as [[s1 r]|e1]; inversion H; reflexivity. Qed.
+(* ------------------------------------------------------------------ denom -> amount lists *)
+Lemma has_key_add_to : forall l d delta x, has_key (add_to l d delta) x = has_key l x.
+Proof.
+  induction l as [|[k v] r IH]; intros; simpl; [reflexivity|].
+  destruct (k =? d); simpl; [reflexivity|]. rewrite IH. reflexivity.
+Qed.
 
-End WithMath.
+Lemma lookup_add_to : forall l d delta x,
+  lookup (add_to l d delta) x = lookup l x + ind (has_key l d && (x =? d)) delta.
+Proof.
+  induction l as [|[k v] r IH]; intros; simpl; [unfold ind; simpl; lia|].
+  destruct (k =? d) eqn:E; simpl.
+  - apply Z.eqb_eq in E; subst. destruct (d =? x) eqn:E2.
+    + apply Z.eqb_eq in E2; subst. rewrite Z.eqb_refl. unfold ind; simpl. lia.
+    + rewrite (Z.eqb_sym x d), E2. unfold ind; simpl. lia.
+  - destruct (k =? x) eqn:E2.
+    + assert (X : x =? d = false) by (apply Z.eqb_neq; apply Z.eqb_neq in E; apply Z.eqb_eq in E2; lia).
+      rewrite X, andb_false_r. unfold ind; lia.
+    + apply IH.
+Qed.
+
+Fixpoint csum (coins : list (Z * Z)) (x : Z) : Z :=
+  match coins with
+  | [] => 0
+  | (d, a) :: r => ind (x =? d) a + csum r x
+  end.
+
+Lemma lookup_add_coins : forall coins l sign x,
+  forallb (fun c => has_key l (fst c)) coins = true ->
+  lookup (add_coins l coins sign) x = lookup l x + sign * csum coins x.
+Proof.
+  induction coins as [|[d a] r IH]; intros; simpl; [lia|].
+  simpl in H. apply andb_prop in H. destruct H as [H1 H2].
+  rewrite IH.
+  - rewrite lookup_add_to, H1. simpl. unfold ind. destruct (x =? d); lia.
+  - rewrite forallb_forall in *. intros c Hc. rewrite has_key_add_to. apply H2; assumption.
+Qed.
+
+Lemma has_key_add_coins : forall coins l sign x, has_key (add_coins l coins sign) x = has_key l x.
+Proof. induction coins as [|[d a] r IH]; intros; simpl; [reflexivity|]. rewrite IH, has_key_add_to. reflexivity. Qed.
+
+Lemma lookup_no_key : forall l x, has_key l x = false -> lookup l x = 0.
+Proof.
+  induction l as [|[k v] r IH]; intros; simpl in *; [reflexivity|].
+  destruct (k =? x); simpl in H; [discriminate|]. apply IH; assumption.
+Qed.
+
+Lemma csum_lookup_distinct : forall l x, distinct_keys l = true -> csum l x = lookup l x.
+Proof.
+  induction l as [|[k v] r IH]; intros; simpl in *; [reflexivity|].
+  apply andb_prop in H. destruct H as [H1 H2]. apply negb_true_iff in H1.
+  rewrite (Z.eqb_sym x k). destruct (k =? x) eqn:E.
+  - apply Z.eqb_eq in E; subst. rewrite IH by assumption. rewrite lookup_no_key by assumption. unfold ind; lia.
+  - rewrite IH by assumption. unfold ind; lia.
+Qed.
+
+(* ------------------------------------------------------------------ accounts and the bank *)
+Lemma acct_eqb_eq : forall a b, acct_eqb a b = true <-> a = b.
+Proof.
+  destruct a, b; simpl; split; intro H; try discriminate; try reflexivity;
+    try (apply Z.eqb_eq in H; subst; reflexivity); try (inversion H; apply Z.eqb_refl).
+Qed.
+Lemma acct_eqb_refl : forall a, acct_eqb a a = true.
+Proof. intro; apply acct_eqb_eq; reflexivity. Qed.
+Lemma acct_eqb_neq : forall a b, acct_eqb a b = false <-> a <> b.
+Proof.
+  intros; split; intro H.
+  - intro E; subst. rewrite acct_eqb_refl in H; discriminate.
+  - destruct (acct_eqb a b) eqn:E; [apply acct_eqb_eq in E; contradiction|reflexivity].
+Qed.
+Lemma acct_eqb_sym : forall a b, acct_eqb a b = acct_eqb b a.
+Proof.
+  intros. destruct (acct_eqb a b) eqn:E.
+  - apply acct_eqb_eq in E; subst. symmetry; apply acct_eqb_refl.
+  - symmetry. apply acct_eqb_neq. apply acct_eqb_neq in E. congruence.
+Qed.
+
+Definition at_ (a a0 : acct) (x d : Z) : bool := acct_eqb a a0 && (x =? d).
+
+Lemma bal_set_spec : forall b a0 d v a x, bal_set b a0 d v a x = if at_ a a0 x d then v else b a x.
+Proof. reflexivity. Qed.
+
+Lemma bank_move_spec : forall b from to d amt b',
+  bank_move b from to d amt = Ok b' ->
+  amt <= b from d /\
+  forall a x, b' a x = b a x + ind (at_ a to x d) amt - ind (at_ a from x d) amt.
+Proof.
+  unfold bank_move; intros. destruct (b from d <? amt) eqn:E; [discriminate|]. apply Z.ltb_ge in E.
+  inversion H; subst; clear H. split; [assumption|]. intros.
+  rewrite !bal_set_spec. unfold at_, ind.
+  destruct (x =? d) eqn:Ex; [apply Z.eqb_eq in Ex; subst x|rewrite !andb_false_r; lia].
+  rewrite !andb_true_r.
+  destruct (acct_eqb a to) eqn:Et; destruct (acct_eqb a from) eqn:Ef;
+    try (apply acct_eqb_eq in Et; subst a); try (apply acct_eqb_eq in Ef; subst);
+    rewrite ?acct_eqb_refl, ?Z.eqb_refl; cbn [andb]; try lia.
+  - rewrite Ef. cbn [andb]. lia.
+Qed.
+
+Lemma send_raw_spec : forall b from to d amt b',
+  send_raw b from to d amt = Ok b' ->
+  0 < amt /\ amt <= b from d /\
+  forall a x, b' a x = b a x + ind (at_ a to x d) amt - ind (at_ a from x d) amt.
+Proof.
+  unfold send_raw; intros. destruct (amt <=? 0) eqn:E; [discriminate|]. apply Z.leb_gt in E.
+  apply bank_move_spec in H. tauto.
+Qed.
+
+Lemma send_new_spec : forall b from to d amt b',
+  send_new b from to d amt = Ok b' ->
+  0 <= amt /\
+  forall a x, b' a x = b a x + ind (at_ a to x d) amt - ind (at_ a from x d) amt.
+Proof.
+  unfold send_new; intros. destruct (amt =? 0) eqn:E0.
+  - apply Z.eqb_eq in E0; subst. inversion H; subst. split; [lia|]. intros. unfold ind.
+    destruct (at_ a to x d), (at_ a from x d); lia.
+  - destruct (amt <? 0) eqn:E1; [discriminate|]. apply Z.ltb_ge in E1.
+    apply bank_move_spec in H. split; [lia|tauto].
+Qed.
+
+Lemma send_coins_spec : forall coins b from to b',
+  send_coins b from to coins = Ok b' ->
+  coins_ok coins = true /\
+  forall a x, b' a x = b a x + ind (acct_eqb a to) (csum coins x) - ind (acct_eqb a from) (csum coins x).
+Proof.
+  induction coins as [|[d v] r IH]; intros; simpl in H.
+  - inversion H; subst. split; [reflexivity|]. intros; unfold ind; simpl. destruct (acct_eqb a to), (acct_eqb a from); lia.
+  - destruct (send_raw b from to d v) as [b1|] eqn:E; [|discriminate].
+    apply send_raw_spec in E. destruct E as (Pz & _ & S1).
+    apply IH in H. destruct H as (Ok1 & S2).
+    split.
+    + simpl. rewrite Ok1. assert (0 <? v = true) by (apply Z.ltb_lt; assumption). rewrite H. reflexivity.
+    + intros. rewrite S2, S1. simpl. unfold at_, ind.
+      destruct (acct_eqb a to), (acct_eqb a from), (x =? d); simpl; lia.
+Qed.
+
+(* ------------------------------------------------------------------ sums of balances over a list of accounts *)
+Fixpoint sumL (L : list acct) (b : bank) (x : Z) : Z :=
+  match L with
+  | [] => 0
+  | a :: r => b a x + sumL r b x
+  end.
+Definition inL (L : list acct) (a : acct) : bool := existsb (acct_eqb a) L.
+
+Lemma inL_In : forall L a, inL L a = true <-> In a L.
+Proof.
+  unfold inL; intros. rewrite existsb_exists. split.
+  - intros (y & Hy & E). apply acct_eqb_eq in E; subst; assumption.
+  - intro H. exists a. split; [assumption|apply acct_eqb_refl].
+Qed.
+
+(* the sum of an indicator over a duplicate-free list *)
+Lemma sumL_ind : forall L a0 (v : Z), NoDup L ->
+  fold_right (fun a acc => ind (acct_eqb a a0) v + acc) 0 L = ind (inL L a0) v.
+Proof.
+  induction L as [|a r IH]; intros; simpl; [reflexivity|].
+  inversion H; subst. rewrite IH by assumption. unfold inL; simpl.
+  rewrite (acct_eqb_sym a0 a). destruct (acct_eqb a a0) eqn:E; simpl.
+  - apply acct_eqb_eq in E; subst.
+    assert (N : existsb (acct_eqb a0) r = false).
+    { destruct (existsb (acct_eqb a0) r) eqn:X; [|reflexivity]. apply inL_In in X. contradiction. }
+    rewrite N. unfold ind. lia.
+  - unfold ind. lia.
+Qed.
+
+(* pointwise "b' = b + sum of indicator terms" gives the sum *)
+Lemma sumL_delta1 : forall L b b' x a1 (c1 : Z), NoDup L ->
+  (forall a, b' a x = b a x + ind (acct_eqb a a1) c1) ->
+  sumL L b' x = sumL L b x + ind (inL L a1) c1.
+Proof.
+  intros L b b' x a1 c1 ND H. rewrite <- (sumL_ind L a1 c1 ND). clear ND.
+  induction L as [|a r IH]; simpl; [lia|]. rewrite H, IH. lia.
+Qed.
+
+Lemma sumL_ext : forall L b b' x, (forall a, b' a x = b a x) -> sumL L b' x = sumL L b x.
+Proof. induction L; intros; simpl; [reflexivity|]. rewrite H. f_equal. apply IHL; assumption. Qed.
+
+(* a transfer between two accounts of the list leaves the list's total unchanged *)
+Lemma sumL_move : forall L b b' x to from (c : Z), NoDup L ->
+  (forall a, b' a x = b a x + ind (acct_eqb a to) c - ind (acct_eqb a from) c) ->
+  sumL L b' x = sumL L b x + ind (inL L to) c - ind (inL L from) c.
+Proof.
+  intros.
+  set (b1 := fun a y => if y =? x then b a x + ind (acct_eqb a to) c else b a y).
+  assert (E1 : sumL L b1 x = sumL L b x + ind (inL L to) c).
+  { apply sumL_delta1; [assumption|]. intros. unfold b1. rewrite Z.eqb_refl. reflexivity. }
+  assert (E2 : sumL L b' x = sumL L b1 x + ind (inL L from) (- c)).
+  { apply sumL_delta1; [assumption|]. intros. unfold b1. rewrite Z.eqb_refl, H0. unfold ind.
+    destruct (acct_eqb a from); lia. }
+  rewrite E2, E1. unfold ind. destruct (inL L from); lia.
+Qed.
